@@ -48,7 +48,10 @@ def run_property(ctx, mask, monitor, signature, streams, nontrivial=None):
     for name, nq, nth, kw in streams:
         for i in range(ctx.budget(nq, nth)):
             rng = ctx.case_rng(name, i)
-            recipe, _ = X.gen_history(rng, gen=name, **kw)
+            if kw.get('twins'):
+                recipe, _ = X.gen_twins(rng, gen=name)
+            else:
+                recipe, _ = X.gen_history(rng, gen=name, **kw)
             recipe['case_index'] = i
             case, h, run = drive(recipe, mask, monitor, signature)
             cases.append(case)
